@@ -5329,6 +5329,9 @@ func (t *Terminal) Loop() error {
 							t.readerKiller()
 						}
 						t.executor.Become(t.ttyin, t.environ(), command)
+						// Still here: the process could not be replaced. The interface is
+						// closed already, there is nothing to go back to
+						req(reqFatal)
 					}
 				}
 			case actBell:
